@@ -843,6 +843,15 @@ def run_line(line):   # noqa: F811
         return 'PYERR OverflowError'
 
 
+class CaseTimeout(BaseException):
+    """a single case ran longer than the per-case limit (not an Exception: the broad handlers
+    around individual operations must not swallow it)"""
+
+
+def _alarm(_sig, _frm):
+    raise CaseTimeout()
+
+
 def main():
     sys.setrecursionlimit(20000)
     pre = os.environ.get('VERIF_PRECREATE')
@@ -853,10 +862,25 @@ def main():
         keep = [X.Variable(sx.name_of(i)) for i in ids]   # variables first created in a permuted order
         _ = keep
     out = sys.stdout
+    import signal
+    limit = float(os.environ.get('VERIF_CASE_TIMEOUT', '30'))
+    signal.signal(signal.SIGALRM, _alarm)
+    timeouts = 0
     for line in sys.stdin:
         line = line.rstrip('\n')
+        if timeouts >= 3:
+            # do not let a non-terminating implementation stall the whole check
+            out.write('ERROR timeout: skipped after %d cases of this batch ran into the per-case limit\n' % timeouts)
+            continue
         try:
-            res = run_line(line)
+            signal.setitimer(signal.ITIMER_REAL, limit)
+            try:
+                res = run_line(line)
+            finally:
+                signal.setitimer(signal.ITIMER_REAL, 0)
+        except CaseTimeout:
+            timeouts += 1
+            res = 'ERROR timeout: the case did not finish within %.0f s (non-termination or unbounded growth)' % limit
         except Exception as ex:  # noqa: BLE001
             res = 'ERROR runner %s: %s' % (type(ex).__name__, str(ex).replace('\n', ' ')[:200])
         out.write(res + '\n')
